@@ -513,7 +513,7 @@ def selector_constants(F, scopes=None):
             continue
         for bi, si, st in b.stmts():
             rv = st["rv"]
-            if not (rv["k"] == "agg" and str(rv["kind"].get("adt", "")).endswith("state::Contributions")):
+            if not (rv["k"] == "agg" and str(rv["kind"].get("adt", "")).split("::")[-1] == "Contributions" and str(rv["kind"].get("adt", "")).startswith("feos_core::")):
                 continue
             n += 1
             per_fn.setdefault(fn, []).append((rv["kind"].get("variant"), st.get("span", b.file_line())))
@@ -536,7 +536,7 @@ def selector_constants(F, scopes=None):
             r.inst(iid, lits[0][1], "ok", nontrivial=bool(allowed_res), literals=len(lits))
     r.inst("selector|const|census", "-", "ok", literal_selectors=n, nontrivial=n > 0)
     if scopes is None:
-        r.floor("literal contribution selectors", n, 90)
+        r.floor("literal contribution selectors", n, 114)
     r.exhaustive = True
     return r
 
